@@ -39,7 +39,7 @@ def brief(e):
     return '%s(%s, %s%s) [%s] -> %s' % (e['op'], v(e['x']), v(e['y']), (', %s' % extra) if extra != '' else '', e['mode'], v(e['res']))
 
 
-def validate(ctx, evs, what, replay_kind='bcalc'):
+def validate(ctx, evs, what, replay_kind='bcalc', sigfn=None):
     byid = {}
     for j, e in enumerate(evs):
         e['id'] = '%s:%d' % (what, j)
@@ -54,8 +54,8 @@ def validate(ctx, evs, what, replay_kind='bcalc'):
         ctx.sample(brief(e))
     for eid, verdict, _ in v.deviations:
         e = byid[eid]
-        ctx.deviation('BCalc:%s:%s-%s' % (e['op'], e['x']['k'], e['y']['k']),
-                      '%s: %s' % (what, brief(e)), dict(kind=replay_kind, event=e))
+        sig = (sigfn(e) if sigfn else None) or 'BCalc:%s:%s-%s' % (e['op'], e['x']['k'], e['y']['k'])
+        ctx.deviation(sig, '%s: %s' % (what, brief(e)), dict(kind=replay_kind, event=e))
     return v
 
 
@@ -111,7 +111,55 @@ def _stage(cs):
     return forkpool.forkmap(one, cs, batch=300)
 
 
-def run_cases(ctx, cs, what):
+def _round_exact(x, mode):
+    """Integer nearest to the Fraction x under `mode` (referee for the DEPENDENCY only, see dep_quantize_referee)."""
+    import math
+    fl = math.floor(x)
+    if x == fl:
+        return fl
+    ce, tr = fl + 1, (fl if x > 0 else fl + 1)
+    aw = ce if x > 0 else fl
+    twice = 2 * (x - fl)
+    if mode == 'ROUND_FLOOR':
+        return fl
+    if mode == 'ROUND_CEILING':
+        return ce
+    if mode == 'ROUND_DOWN':
+        return tr
+    if mode == 'ROUND_UP':
+        return aw
+    if mode == 'ROUND_05UP':
+        return aw if tr % 5 == 0 else tr
+    if twice != 1:
+        return fl if twice < 1 else ce
+    return {'ROUND_HALF_UP': aw, 'ROUND_HALF_DOWN': tr, 'ROUND_HALF_EVEN': fl if fl % 2 == 0 else ce}[mode]
+
+
+def dep_quantize_referee(e):
+    """A Quantize deviation on a Decimal amount: is it decimalfp's own `Decimal.quantize` that misrounds this very
+    input (the pinned 0.13.0 does for amounts with more than about 20 fractional digits)?  Then the deviation is the
+    dependency's (known finding dep:decimalfp-quantize-long), otherwise it stays a violation."""
+    try:
+        c = e.get('case') or {}
+        if e['op'] != 'Quantize' or c.get('x', {}).get('rep') != 'dec' or (c['x']['u'] != c['y']['u'] and 'qx' not in c):
+            return None
+        import decimal
+        from decimalfp import Decimal, ROUNDING
+        x, q = F(*c['x']['a']), (F(*c['qx']) if 'qx' in c else F(*c['y']['a']))
+        with decimal.localcontext() as dctx:
+            dctx.prec = 400
+            xs = format(decimal.Decimal(x.numerator) / decimal.Decimal(x.denominator), 'f')
+            qs = format(decimal.Decimal(q.numerator) / decimal.Decimal(q.denominator), 'f')
+        mode = c.get('rm') or c.get('mode', 'ROUND_HALF_EVEN')
+        got = F(Decimal(xs).quantize(Decimal(qs), ROUNDING[mode]))
+        if got != _round_exact(x / q, mode) * q and len(xs.partition('.')[2]) > 18:
+            return 'dep:decimalfp-quantize-long'
+    except Exception:
+        return None
+    return None
+
+
+def run_cases(ctx, cs, what, sigfn=None):
     res = forkpool.run_stage(_stage, cs)
     evs = []
     ndiv = 0
@@ -131,7 +179,7 @@ def run_cases(ctx, cs, what):
         evs.append(e[0])
     if ndiv:
         ctx.notes.append('%s: decimalfp division guard stepped in %d time(s)' % (what, ndiv))
-    return validate(ctx, evs, what, replay_kind='bcalc-case')
+    return validate(ctx, evs, what, replay_kind='bcalc-case', sigfn=sigfn)
 
 
 def table():
